@@ -515,6 +515,7 @@ func (w *dworld) localWith(ri int, cs dcall) {
 	r := w.reps[ri]
 	before := r.value()
 	nb := len(r.pending())
+	idb := r.metaOpID()
 	want, ok := cs.plain(plainCopy(before))
 	var err error
 	p, msg := guarded(func() { err = cs.run(r.doc) })
@@ -537,6 +538,9 @@ func (w *dworld) localWith(ri int, cs dcall) {
 	}
 	if !ok && len(r.pending()) != nb {
 		w.c.Violate("C03", "document-failed-call-left-operations", fmt.Sprintf("the failing call %s queued %d operations", cs.desc, len(r.pending())-nb), w.desc)
+	}
+	if !ok && err != nil && r.metaOpID() != idb {
+		w.c.Violate("C03", "document-failed-call-left-a-trace", fmt.Sprintf("the failing call %s changed the operation id from %s to %s (the next operation will not carry the next sequence number)", cs.desc, idb, r.metaOpID()), w.desc)
 	}
 	w.c.Count("doc-local")
 	w.checkIdentifiers(r)
@@ -636,6 +640,82 @@ func (w *dworld) checkIdentifiers(r *drep) {
 		}
 	}
 	w.c.Count("doc-identifiers-checked")
+}
+
+// nullCalls: calls the model cannot express (its values have no null) and that must be refused without a trace — a null
+// value, alone or inside a list or a map, given to PutToObject / InsertToArray / UpdateManyInArray, and GetByPath with an
+// array index below 0 or beyond the array: an error, no panic, the readable value, the operations awaiting push and the
+// operation id as before (C03).  The unrepaired code panicked on each of them, after the operation id had been taken.
+func (w *dworld) nullCalls(ri int) {
+	r := w.reps[ri]
+	before := r.value()
+	nb := len(r.pending())
+	idb := r.metaOpID()
+	var cs [][]interface{}
+	containers(before, nil, &cs)
+	path := cs[w.c.Rng.Intn(len(cs))]
+	sub, ok := walk(r.doc, path)
+	if !ok {
+		return
+	}
+	nulls := []interface{}{nil, []interface{}{1, nil}, map[string]interface{}{"a": nil, "b": 1}, []interface{}{map[string]interface{}{"x": []interface{}{nil}}}}
+	v := nulls[w.c.Rng.Intn(len(nulls))]
+	var err error
+	what := ""
+	p, msg := guarded(func() {
+		switch t := getAt(before, path).(type) {
+		case map[string]interface{}:
+			what = fmt.Sprintf("%s.PutToObject(\"k\",%s)", pathStr(path), jsonStr(v))
+			_, err = sub.PutToObject("k", v)
+		case []interface{}:
+			if len(t) > 0 && w.c.Rng.Intn(2) == 0 {
+				what = fmt.Sprintf("%s.UpdateManyInArray(0,%s)", pathStr(path), jsonStr(v))
+				_, err = sub.UpdateManyInArray(0, v)
+			} else {
+				what = fmt.Sprintf("%s.InsertToArray(0,%s)", pathStr(path), jsonStr(v))
+				_, err = sub.InsertToArray(0, v)
+			}
+		}
+	})
+	w.desc = append(w.desc, fmt.Sprintf("r%d%s", ri, what))
+	after := r.value()
+	switch {
+	case p:
+		w.c.Violate("C03", "panic-document", fmt.Sprintf("Document call %s with a null value panicked: %s", what, msg), w.desc)
+		panic("document call panicked")
+	case what != "" && isNilErr(err):
+		w.c.Violate("C03", "document-invalid-call-accepted", fmt.Sprintf("the call %s with a null value was accepted and the document now reads %s", what, jsonStr(after)), w.desc)
+	case !reflect.DeepEqual(after, before) || len(r.pending()) != nb || r.metaOpID() != idb:
+		w.c.Violate("C03", "document-failed-call-left-a-trace", fmt.Sprintf("the refused call %s changed the document, its pending operations (%d -> %d) or its operation id (%s -> %s)", what, nb, len(r.pending()), idb, r.metaOpID()), w.desc)
+	}
+	// paths through an array with an index that is not there
+	for _, cp := range cs {
+		l, isArr := getAt(before, cp).([]interface{})
+		plainKeys := true // GetByPath splits at '/': keys holding one would name another path
+		for _, x := range cp {
+			if k, isKey := x.(string); isKey && (strings.Contains(k, "/") || k == "") {
+				plainKeys = false
+			}
+		}
+		if !isArr || !plainKeys {
+			continue
+		}
+		for _, idx := range []int{len(l), len(l) + 5, -1} {
+			ps := pathStr(append(append([]interface{}{}, cp...), idx))
+			var perr error
+			pp, pmsg := guarded(func() { _, perr = r.doc.GetByPath(ps) })
+			if pp {
+				w.desc = append(w.desc, fmt.Sprintf("r%d.GetByPath(%q)", ri, ps))
+				w.c.Violate("C03", "panic-document", fmt.Sprintf("GetByPath(%q) on %s panicked: %s", ps, jsonStr(before), pmsg), w.desc)
+				panic("document call panicked")
+			}
+			if isNilErr(perr) {
+				w.c.Violate("C03", "document-invalid-call-accepted", fmt.Sprintf("GetByPath(%q) on %s returned no error", ps, jsonStr(before)), w.desc)
+			}
+		}
+		break
+	}
+	w.c.Count("doc-null-calls")
 }
 
 func (w *dworld) tx(ri int) {
@@ -1029,6 +1109,9 @@ func sliceDoc(c *Ctx) {
 				case k < 6:
 					w.cur = "local call"
 					w.staleCall(ri)
+				case k < 9:
+					w.cur = "null value / path out of range"
+					w.nullCalls(ri)
 				case k < 52:
 					w.cur = "local call"
 					w.local(ri)
